@@ -45,10 +45,84 @@ def run(ctx):
         ctx.count()
         ctx.nontriv(c["origin"])
     depcheck.run_shards(ctx, real, "real", size=2)
+    memory_cycles(ctx)
+
+
+def memory_cycles(ctx):
+    """Cycles carried through MEMORY on the real ISA databases: running-sum kernels (a store or read-modify-write store, a reload of
+    the same cell that feeds the stored value, a pointer bump somewhere).  Whether the store/reload pair closes a cycle is known
+    from the construction: the pair is on a loop-carried cycle iff no bump lies on the (cyclic) way from the store to the next reload.  Plus the LCD correspondence on these kernels."""
+    import re
+    import c06
+    import c14
+    import models
+    avail = models.nonempty_archs()
+    memcases = []
+    hist = {"cycle_expected": 0, "no_cycle_expected": 0, "undecided": 0}
+    for i in range(ctx.n(40, 500)):
+        isa = "x86" if i % 3 else "aarch64"
+        arch = [m for m in (c06.X86_MODELS if isa == "x86" else c06.A64_MODELS) if m in avail][0]
+        pipe = deps.Pipeline(ctx, isa, arch=arch)
+        text = c14.running_sum(ctx.rng, isa)
+        lines = text.strip().split("\n")
+        rep = {"isa": isa, "arch": arch, "text": text, "kind": "memory"}
+        try:
+            case, kernel, dg = deps.build_case(pipe, text, False)
+        except Exception as e:  # noqa
+            ctx.violation("lcd-raises", "running-sum kernel on %s: %r" % (arch, e), rep)
+            continue
+        case["origin"] = "running-sum kernel on " + arch
+        memcases.append(case)
+        ctx.count()
+        # construction facts: st = the line with a memory destination, ld = the reload, bump = the pointer bump (if any)
+        is_mem = (lambda l: "(" in l) if isa == "x86" else (lambda l: "[" in l)
+        mem_lines = [j for j, l in enumerate(lines) if is_mem(l) and not l.startswith("lea")]
+        if len(mem_lines) != 2:
+            hist["undecided"] += 1
+            continue
+        st = [j for j in mem_lines if (lines[j].rstrip().endswith(")") if isa == "x86" else lines[j].startswith("str"))]
+        ld = [j for j in mem_lines if j not in st]
+        if len(st) != 1 or len(ld) != 1:
+            hist["undecided"] += 1
+            continue
+        st, ld = st[0], ld[0]
+        base = re.search(r"\((%\w+)\)", lines[st]).group(1) if isa == "x86" else re.search(r"\[(\w+)", lines[st]).group(1)
+        if isa == "x86":
+            brx = r"^(addq \$-?\d+, %s|subq \$-?\d+, %s|incq %s|leaq .*, %s)$" % ((re.escape(base),) * 4)
+        else:
+            brx = r"^(add|sub) %s, %s, #-?\d+$" % (base, base)
+        bump = [j for j, l in enumerate(lines) if j not in (st, ld) and re.search(brx, l)]
+        if any(l.startswith("lea") for l in lines):
+            hist["undecided"] += 1          # lea is not tracked: the reload may or may not be linked
+            continue
+        # the reload that follows the store in program order (same iteration, or the next one when it stands before the store)
+        # reads the stored cell iff no bump lies between the two on that (cyclic) way
+        if st < ld:
+            expect = not any(st < b < ld for b in bump)
+        else:
+            expect = not any(b > st or b < ld for b in bump)
+        hist["cycle_expected" if expect else "no_cycle_expected"] += 1
+        ctx.nontriv(text)
+        both = [e for e in case["lcd"] if (st + 1) in [m for m, _ in e[1]] and (ld + 1) in [m for m, _ in e[1]]]
+        if expect and not both:
+            ctx.violation("lcd-memory-cycle-missing", "%s: the reload (line %d) reads the cell the store (line %d) writes and feeds it again, "
+                          "but no loop-carried dependency contains both: %s -> %s" % (arch, ld + 1, st + 1, text.replace("\n", " ; "),
+                                                                                     [[m for m, _ in e[1]] for e in case["lcd"]]), rep)
+        if not expect and both:
+            ctx.violation("lcd-memory-cycle-spurious", "%s: store (line %d) and reload (line %d) address different cells in every iteration but a "
+                          "loop-carried dependency contains both: %s" % (arch, st + 1, ld + 1, text.replace("\n", " ; ")), rep)
+    ctx.coverage["memory_cycles"] = hist
+    depcheck.run_shards(ctx, memcases, "memory", size=10)
 
 
 def replay(ctx, obj):
     r = obj["replay"]
+    if r.get("kind") == "memory":
+        pipe = deps.Pipeline(ctx, r["isa"], arch=r["arch"])
+        case, kernel, dg = deps.build_case(pipe, r["text"], False)
+        ctx.log("replay LCD: %s" % case["lcd"])
+        ctx.count()
+        return
     if r.get("db"):
         pipe = deps.Pipeline(ctx, r["isa"], r["db"]["isa_yaml"], r["db"]["arch_yaml"])
         try:
